@@ -20,7 +20,7 @@ def run_history(seed, same_object=True, steps=40):
             if c < 0.5:
                 n += 1
                 rec = f'r{n:04}'
-                ts += rnd.choice([0.0, 0.0, 1.0, 2.5, -1.0])
+                ts += rnd.choice([0.0, 0.0, 1.0, 2.5, -1.0, 3e-7, -3e-7, 0.1234567])       # equal, forward, backward and sub-microsecond steps
                 before = {f: open(os.path.join(d, f)).read() for f in os.listdir(d)}
                 w.write(rec, timestamp=ts)
                 written.append(rec)
